@@ -117,3 +117,85 @@ def is_span(loc: dict) -> bool:
     if loc.get("strand") == -1:
         return starts != sorted(starts, reverse=True)
     return starts != sorted(starts)
+
+
+# --------------------------------------------------------------------------- gene layouts
+
+@st.composite
+def gene_layout(draw, length: int, circular: bool, *, max_genes: int = 10, min_genes: int = 1,
+                multi_exon: bool = True, allow_span: bool = True, size_hint: int = 0,
+                gap_choices: tuple = ()) -> list:
+    """ genes built by construction: walking along the record with gaps drawn from a mixture of
+        touching / overlapping / nested / same-start / same-end / far, both strands, optionally
+        multi-exon, optionally one or two genes spanning the origin of a circular record.
+        Returns a list of {"name", "loc"} with pairwise distinct locations (the record requires it).
+    """
+    count = draw(st.integers(min_genes, max_genes))
+    typical = size_hint or max(1, length // max(4, 2 * count))
+    genes: list = []
+    seen: set = set()
+    pos = draw(st.integers(0, max(0, min(length - 1, typical))))
+    prev = None
+    for _ in range(count):
+        strand = draw(st.sampled_from([1, -1]))
+        size = draw(st.one_of(st.integers(3, max(3, typical)), st.integers(3, max(3, min(length, 3 * typical))),
+                              st.sampled_from([3, 4, 6])))
+        mode = draw(st.sampled_from(["gap", "gap", "gap", "touch", "overlap", "nested", "same_start", "same_end"]))
+        if prev is None:
+            mode = "gap"
+        if mode == "gap":
+            choices = [st.integers(0, max(1, typical)), st.integers(0, max(1, 3 * typical)), st.sampled_from([0, 1, 2])]
+            if gap_choices:
+                choices.append(st.sampled_from(list(gap_choices)))
+                choices.append(st.sampled_from(list(gap_choices)))
+            start = (prev[1] if prev else pos) + draw(st.one_of(*choices))
+        elif mode == "touch":
+            start = prev[1]
+        elif mode == "overlap":
+            start = max(prev[0], prev[1] - draw(st.integers(1, max(1, prev[1] - prev[0]))))
+        elif mode == "nested":
+            start = draw(st.integers(prev[0], max(prev[0], prev[1] - 1)))
+            size = draw(st.integers(min(3, prev[1] - start), max(1, prev[1] - start)))
+        elif mode == "same_start":
+            start = prev[0]
+        else:  # same_end
+            size = min(size, prev[1])
+            start = prev[1] - size
+        start = max(0, start)
+        if start >= length:
+            break
+        end = min(length, start + size)
+        if end - start < 3:
+            continue
+        parts = [[start, end]]
+        if multi_exon and end - start >= 7 and draw(st.integers(0, 5)) == 0:
+            cut1 = draw(st.integers(start + 3, end - 4))
+            cut2 = draw(st.integers(cut1 + 1, end - 3))
+            parts = [[start, cut1], [cut2, end]]
+        key = (tuple(map(tuple, parts)), strand)
+        if key in seen:
+            continue
+        seen.add(key)
+        genes.append({"loc": {"parts": _order_parts(parts, strand), "strand": strand,
+                              "kind": "simple" if len(parts) == 1 else "multi"}})
+        if mode in ("gap", "touch", "overlap") or prev is None or end > prev[1]:
+            prev = (start, end)
+    if circular and allow_span and length >= 4 and draw(st.integers(0, 2)) == 0:
+        for _ in range(draw(st.integers(1, 2))):
+            strand = draw(st.sampled_from([1, -1]))
+            pre = draw(st.integers(1, max(1, min(length // 2 - 1, typical))))
+            post = draw(st.integers(1, max(1, min(length // 2 - 1, typical))))
+            if pre + post < 3:
+                post = 3 - pre
+            parts = [[length - pre, length], [0, post]]
+            key = (tuple(map(tuple, parts)), strand)
+            if key in seen:
+                continue
+            seen.add(key)
+            genes.append({"loc": {"parts": _order_parts(parts, strand), "strand": strand, "kind": "span"}})
+    if not genes:
+        assert length >= 3
+        genes.append({"loc": {"parts": [[0, 3]], "strand": 1, "kind": "simple"}})
+    for index, gene in enumerate(genes):
+        gene["name"] = f"g{index}"
+    return genes
